@@ -25,6 +25,11 @@ structure W where
   vec : List Seg
   deriving Repr
 
+/-- `len(data)` of a slice of the staging buffer -/
+def stagedLen : Seg → Nat
+  | .staged _ _ len => len
+  | .ext _ => 0
+
 /-- caller memory: slot ↦ current contents -/
 abbrev Mem := Nat → Bytes
 
